@@ -661,6 +661,7 @@ pub fn gen_block(rng: &mut Rng, f: &Features) -> BlockSpec {
     txs: (0..n).map(|_| gen_tx(rng, f)).collect(),
     coinbase: gen_coinbase(rng, f),
     include_mempool: false,
+    mempool_limit: None,
   }
 }
 
